@@ -262,8 +262,8 @@ def peersList (e : Engine) : Except Err (List LPeer) := do
   pure ((e.disjointIPBlocks.map LPeer.ip) ++ owners.map fun (n, p) => LPeer.wl n p)
 
 structure Entry where
-  src : String
-  dst : String
+  src : LPeer
+  dst : LPeer
   conn : ConnSet
 deriving Repr, Inhabited
 
@@ -286,7 +286,7 @@ def connsBetweenPeers (e : Engine) (peers : List LPeer) (focus : String) : Excep
         let ks ← e.toKPeer s
         let kd ← e.toKPeer d
         let c ← e.peerConns ks kd
-        if c.isEmpty then pure acc else pure (acc ++ [⟨s.str, d.str, c⟩])) acc) []
+        if c.isEmpty then pure acc else pure (acc ++ [⟨s, d, c⟩])) acc) []
 
 end Engine
 end Netpol
